@@ -1,6 +1,6 @@
 SPECIFICATION Spec
 CONSTANTS
-  Inputs = {"zine", "nested5"}
+  Batches <- BatchesQuick
   MaxLen = 1
   Emit = TRUE
 INVARIANTS TypeOK EmitCase
